@@ -166,3 +166,8 @@ pub unsafe extern "C" fn __clear_cache(start: *mut u8, end: *mut u8) {
         s.log.push(Event::Flush { lo, hi, snap });
     }
 }
+
+/// the un-wrapped calls, for the harness's own arenas
+pub mod real {
+    pub use real_libc::{mmap, mprotect, munmap};
+}
